@@ -33,13 +33,13 @@ REJECTS_CF = {"fit_len_mismatch", "pfit_len_mismatch", "fit_bad_type", "pfit_rew
 def consts(lp, **over):
     c = dict(LP=lp, Labels={"a", "b", "c"}, InitArms=["a", "b"], Rewards=set(REWARDS[lp]), MaxBatch=2, MaxHist=3,
              MaxDepth=3, Ops={"fit", "partial_fit", "add_arm", "remove_arm", "predict", "predict_expectations"},
-             InitBin="none", NewBins={"keep"}, Thr={"a": 1, "b": 2, "c": 3, "d": 1}, Feat=FEATS["std"],
+             InitBin="none", NewBins={"keep"}, Thr={"a": 1, "b": 2, "c": 3, "d": 1}, Feat="std",
              Quantiles={(0, 1), (1, 2), (1, 1)}, RejectKinds=set(), QueryRows={0, 1, 2}, Dev=set())
     c.update(over)
-    feat = c["Feat"]
-    if isinstance(feat, str):
-        feat = FEATS[feat]
-    c["Feat"] = {k: v for k, v in feat.items() if k in c["Labels"]}
+    feat = c.pop("Feat")
+    names = [feat] if isinstance(feat, (str, dict)) else list(feat)
+    maps = [FEATS[f] if isinstance(f, str) else f for f in names]
+    c["FeatSets"] = [{k: v for k, v in m.items() if k in c["Labels"]} for m in maps]
     c["Thr"] = {k: v for k, v in c["Thr"].items() if k in c["Labels"]}
     return c
 
@@ -71,7 +71,7 @@ def _job(spec):
                 binding = lin.LinBinding(lam=c["Lambda"], scale=c.get("Scaled", False), **bkw)
             else:
                 binding = cf.CFBinding(c["LP"], **bkw)
-            replay = cf.Replay(binding, feat=c.get("Feat", {}), checks=spec.get("checks", cf.ALL_CHECKS),
+            replay = cf.Replay(binding, feat=c.get("FeatSets") or c.get("Feat", {}), checks=spec.get("checks", cf.ALL_CHECKS),
                                clone_every=spec.get("clone_every", 1))
             replay.record_outputs = bool(spec.get("cross"))
             replay.caller_check = bool(spec.get("caller_check"))
@@ -79,6 +79,18 @@ def _job(spec):
             replay.run(result.edges)
             if spec.get("cross"):
                 cross.append((binding, replay))
+            if spec.get("mode") == "sim" and not spec.get("cross") and bkw is spec["bindings"][0]:
+                # the same behaviours once more as paths on a single never-copied object
+                fresh_binding = type(binding)(**_binding_kwargs(module, c, bkw))
+                paths = cf.Replay(fresh_binding, feat=replay.feat, checks=spec.get("checks", cf.ALL_CHECKS))
+                paths.run_paths(result.edges)
+                replay.stats["path_edges"] = paths.stats.get("path_edges", 0)
+                for finding in paths.findings:
+                    finding["job"] = spec["name"] + "/paths"
+                    finding["consts"] = {k: _plain(v) for k, v in c.items()}
+                    finding["engine"] = {"Lin": "lin", "Life": "life"}.get(module, "cf")
+                    finding["path_mode"] = True
+                    out["findings"].append(dict(finding))
             out["replays"].append({"binding": binding.describe(), "stats": replay.stats, "wall": time.time() - start,
                                    "samples": replay.samples})
             for finding in replay.findings:
@@ -94,6 +106,14 @@ def _job(spec):
     except Exception:  # noqa
         out["error"] = traceback.format_exc()
     return out
+
+
+def _binding_kwargs(module, c, bkw):
+    if module == "Lin":
+        return dict(bkw, lam=c["Lambda"], scale=c.get("Scaled", False))
+    if module == "Life":
+        return dict(bkw)
+    return dict(bkw, lp=c["LP"])
 
 
 def _cross_compare(spec, cross):
